@@ -230,6 +230,21 @@ template <typename T, bool OW> struct Runner {
             out({});
             break;
         }
+        case 16: case 17: {
+            // aliasing argument: a reference to an element of the same buffer
+            int64_t v = ref[b].items.at((size_t) op[2]);
+            T *r;
+            {
+                LogScope ls;
+                if (code == 16) r = &buf[b]->push_back((*buf[b])[(size_t) op[2]]);
+                else r = &buf[b]->push_front((*buf[b])[(size_t) op[2]]);
+            }
+            if (code == 16) refPushBack(ref[b], v); else refPushFront(ref[b], v);
+            if (r != &(*buf[b])[code == 16 ? buf[b]->size() - 1 : 0]) fail("push with an aliasing argument did not return a reference to the new element");
+            if (E::show(*r) != v) fail("push with an argument referring to an own element stored a different value");
+            out({E::show(*r)});
+            break;
+        }
         default: emit({PRE}); break;
         }
     }
